@@ -448,7 +448,9 @@ impl St<'_> {
         if !self.fails.iter().any(|f| f.oracle == oracle) {
             self.fails.push(Failure { oracle: oracle.to_string(), msg });
         }
-        self.stop = true;
+        if bsv_core::runner::stops_case(crate::strings::str_owns(bsv_core::runner::current_prop(), oracle)) {
+            self.stop = true;
+        }
     }
     fn note(&mut self, s: impl FnOnce() -> String) {
         if self.log.is_some() && std::env::var_os("VERIF_TRACE").is_some() {
